@@ -32,8 +32,9 @@ func genDate(t *rapid.T, l string) *timestamppb.Timestamp {
 	return &timestamppb.Timestamp{Seconds: sec, Nanos: int32(rapid.IntRange(0, 999999999).Draw(t, l+"nanos"))}
 }
 
-const nPurposes = 30 // 0..29
-const nExtRefTypes = 62
+// number of *defined* values of the two enums (numbers beyond them are not "enum values")
+var nPurposes = len(sbom.Purpose_name)
+var nExtRefTypes = len(sbom.ExternalReference_ExternalReferenceType_name)
 
 func genSPDXNode(t *rapid.T, id string) *sbom.Node {
 	tx := hx.TextPlain()
@@ -104,7 +105,7 @@ func genSPDXNode(t *rapid.T, id string) *sbom.Node {
 func genSPDXDoc(t *rapid.T) *sbom.Document {
 	doc := sbom.NewDocument()
 	doc.Metadata.Id = "urn:doc"
-	doc.Metadata.Name = hx.TextPlain().Draw(t, "docname")
+	doc.Metadata.Name = hx.TextPlainNE().Draw(t, "docname") // (the document name is mandatory in SPDX: a writer may refuse a nameless document)
 	ids := rapid.SliceOfNDistinct(hx.SPDXID(), 0, 8, rapid.ID[string]).Draw(t, "ids")
 	for _, id := range ids {
 		doc.NodeList.Nodes = append(doc.NodeList.Nodes, genSPDXNode(t, id))
@@ -211,10 +212,10 @@ func spdxProj(n *sbom.Node, wildcard bool) proj {
 		p["file_types"] = joinSorted(filterStrings(n.FileTypes, func(s string) bool { return spdxFileTypes[s] }))
 		return p
 	}
-	p["attribution"] = joinSorted(filterStrings(n.Attribution, func(s string) bool { return s != "" }))
+	p["attribution"] = joinSorted(dedupe(filterStrings(n.Attribution, func(s string) bool { return s != "" })))
 	p["version"] = n.Version
 	p["file_name"] = n.FileName
-	p["url_home"] = n.UrlHome
+	p["url_home"] = normNone(n.UrlHome)
 	p["url_download"] = normNone(n.UrlDownload)
 	p["source_info"] = n.SourceInfo
 	p["summary"] = n.Summary
@@ -226,18 +227,21 @@ func spdxProj(n *sbom.Node, wildcard bool) proj {
 		}
 	}
 	p["identifiers"] = joinSorted(ids)
-	ers := []string{}
+	ers, exact := []string{}, []string{}
 	for _, e := range n.ExternalReferences {
 		if e.Url == "" {
 			continue
 		}
-		ty := e.Type
-		if !spdxExactExt[ty] {
-			ty = sbom.ExternalReference_OTHER
+		// the locator and comment of every reference survive (as a set: references that render identically are one);
+		// the type survives when SPDX has an exact counterpart — what a type without counterpart degrades to is the
+		// serializer's choice
+		ers = append(ers, fmt.Sprintf("%s|%s", e.Url, e.Comment))
+		if spdxExactExt[e.Type] {
+			exact = append(exact, fmt.Sprintf("%d|%s|%s", e.Type, e.Url, e.Comment))
 		}
-		ers = append(ers, fmt.Sprintf("%d|%s|%s", ty, e.Url, e.Comment))
 	}
-	p["external_references"] = joinSorted(ers)
+	p["external_references"] = joinSorted(dedupe(ers))
+	p["extref_exact"] = joinSorted(dedupe(exact))
 	switch {
 	case len(n.PrimaryPurpose) > 0 && spdxNativePurpose[n.PrimaryPurpose[0]]:
 		p["primary_purpose"] = n.PrimaryPurpose[0].String()
@@ -274,8 +278,21 @@ func compareDocs(want, got *sbom.Document, projf func(n *sbom.Node, wildcard boo
 		sort.Strings(keys)
 		for _, k := range keys {
 			if k == "primary_purpose" && w[k] == wildcardMark {
-				if k == "primary_purpose" && g[k] != "" && !spdxNativePurposeName(g[k]) {
-					return fmt.Errorf("node %q: primary purpose came back as non-native value %q", n.Id, g[k])
+				// a purpose SPDX has no native value for may come back absent, as a native value, or as itself
+				if g[k] != "" && !spdxNativePurposeName(g[k]) && (len(n.PrimaryPurpose) == 0 || g[k] != n.PrimaryPurpose[0].String()) {
+					return fmt.Errorf("node %q: primary purpose came back as %q, which is neither a native value nor the node's own", n.Id, g[k])
+				}
+				continue
+			}
+			if k == "extref_exact" {
+				have := map[string]bool{}
+				for _, e := range strings.Split(g[k], "\x00") {
+					have[e] = true
+				}
+				for _, e := range strings.Split(w[k], "\x00") {
+					if e != "" && !have[e] {
+						return fmt.Errorf("node %q: external reference %q did not come back with its type (got %q)", n.Id, e, g[k])
+					}
 				}
 				continue
 			}
